@@ -334,6 +334,21 @@ class _ModelInterp(Interp):
     def __init__(self, model, *a, **kw):
         super().__init__(*a, **kw)
         self._model = model
+        self._xdepth = 0
+
+    def call_function(self, func, args, kwargs=None, recv=None):
+        # the shared interpreter returns an opaque value beyond 6 nested calls; here every call is executed
+        self._xdepth += 1
+        if self._xdepth > 80:
+            self._xdepth -= 1
+            raise AnalysisError("model run: more than 80 nested calls (at %s)" % func.qualname)
+        saved = self.depth
+        self.depth = 0
+        try:
+            return super().call_function(func, args, kwargs, recv)
+        finally:
+            self.depth = saved
+            self._xdepth -= 1
 
     def _comp(self, e, env, func, kind):
         """comprehensions with several `for` clauses over concrete sequences"""
